@@ -64,7 +64,7 @@ let show_out (st : state) (o : out) =
   | OPt -> "pt"
   | OId (isreq, r, c4) ->
     let rs = match r with
-      | IdNil -> "nil" | IdErr -> "err"
+      | IdNil -> "nil" | IdErr -> "err" | IdPanic -> "panic"
       | IdTold a -> (if isreq then "ack:" else "offer:") ^ dn a in
     Printf.sprintf "%s %s ctx4=%s" (if isreq then "iq" else "id") rs (show_addr c4)
   | OIs (adv, c6, cd) ->
@@ -118,14 +118,14 @@ let split_segs line = Str.split (Str.regexp_string " ; ") line
 let () =
   let cases = read_lines Sys.argv.(1) in
   let impls = if Array.length Sys.argv > 2 && Sys.argv.(2) <> "-" then Some (read_lines Sys.argv.(2)) else None in
-  (* variant names: repaired | defective | v<d1><d2><d3><d5> with 0/1 flags *)
+  (* variant names: repaired | defective | v<d1><d2><d3><d4><d5> with 0/1 flags *)
   let variant =
     if Array.length Sys.argv > 3 then
       (match Sys.argv.(3) with
        | "defective" -> defective
        | "repaired" -> repaired
-       | v when String.length v = 5 && v.[0] = 'v' ->
-         { d1 = (v.[1] = '1'); d2 = (v.[2] = '1'); d3 = (v.[3] = '1'); d5 = (v.[4] = '1') }
+       | v when String.length v = 6 && v.[0] = 'v' ->
+         { d1 = (v.[1] = '1'); d2 = (v.[2] = '1'); d3 = (v.[3] = '1'); d4 = (v.[4] = '1'); d5 = (v.[5] = '1') }
        | _ -> repaired)
     else repaired in
   List.iteri (fun idx line ->
